@@ -25,7 +25,7 @@ def run(ctx):
     from ..common import mktempdir as _mktempdir
     from ..common import run_driver_parallel
     dump = os.path.join(_mktempdir(prefix="feasdump_"), "dump.json")
-    r = tlc.run_tlc("FeasMGH", workers=1, env={"DUMP_FILE": dump}, init="DumpInit", nxt="Next", constants=dict(MaxD=3, MaxCnt=3), heap="4g")
+    r = tlc.run_tlc("FeasMGH", workers=1, env={"DUMP_FILE": dump}, init="DumpInit", nxt="DumpNext", constants=dict(MaxD=3, MaxCnt=3), heap="4g")
     feas_div = 0
     if r["error"] or not os.path.exists(dump):
         ctx.machinery_errors.append("FeasMGH dump failed:\n" + r["out"][-1500:])
@@ -158,6 +158,15 @@ def run(ctx):
     mgh.validate(ctx, items, "V-certificates", "C05")
     # more than 127 vertices with a small diameter (the distance matrix lives in int8 while counts and sort keys do not fit it)
     mgh.validate(ctx, mgh.many_vertices_items(rng, "C05", quick), "V-many-vertices-small-diameter", "C05", nproc=8)
+    # the other dtype boundary: DIAMETERS around 127 / 128 (the distance matrix's smallest sufficient integer type) against K2 and the path on
+    # 3 vertices; no exact oracle at this size -- the diameter-difference bound (2*mGH >= diam X - diam Y, in TraceMGH) decides the upper bound
+    items = []
+    for n in ([127, 128, 129, 130] if quick else [126, 127, 128, 129, 130, 131, 255, 256, 257, 258]):
+        gx = (n, mgh.rand_connected(rng, n, "path"))
+        for small in ((2, [(1, 2)]), (3, [(1, 2), (2, 3)])):
+            items.append(mgh.mk_pair_item(gx, small, rng.choice(mgh.C05_REPRS), mgh.CANON, seed=n, order=[0, 0], exact=False, owner="C05", hook=False))
+            items.append(mgh.mk_pair_item(small, gx, mgh.CANON, rng.choice(mgh.C05_REPRS), seed=n + 1, order=[0, 0], exact=False, owner="C05", hook=False))
+    mgh.validate(ctx, items, "V-diameter-dtype-boundary", "C05", nproc=8)
 
 
 def replay(ctx, rec):
